@@ -189,5 +189,48 @@ func runC16(in sx.SX) (sx.SX, string) {
 				sx.Quote(input), tok.Type(), sx.Quote(tok.Value()), rem, sx.Quote(want), wantType, wantRem)
 		}
 	}
+	// reads interleaved with registrations on ONE state object: before the first registration and after every one, every
+	// input is read and answers for the registrations so far (what a read leaves in the trie must not outlive an Add)
+	if fail == "" {
+		st2 := generic.NewGenericSymbolState()
+		for k := 0; k <= len(regs) && fail == ""; k++ {
+			if k > 0 {
+				st2.Add(regs[k-1].s, int(regs[k-1].t))
+			}
+			for _, i := range sx.AsList(l[1]) {
+				input := sx.AsString(i)
+				if input == "" {
+					continue
+				}
+				sc := sio.NewStringScanner(input)
+				tok := st2.NextToken(sc, nil)
+				rem := 0
+				for sc.Read() != -1 {
+					rem++
+				}
+				want, wantType, best := string([]rune(input)[:1]), int64(7), 0
+				for _, r := range regs[:k] {
+					if strings.HasPrefix(input, r.s) && len([]rune(r.s)) >= best {
+						if len([]rune(r.s)) > best {
+							best = len([]rune(r.s))
+						}
+						want = r.s
+					}
+				}
+				if best > 0 {
+					for _, r := range regs[:k] {
+						if r.s == want {
+							wantType = r.t
+						}
+					}
+				}
+				wantRem := len([]rune(input)) - len([]rune(want))
+				if (tok.Value() != want || int64(tok.Type()) != wantType || rem != wantRem) && fail == "" {
+					fail = fmt.Sprintf("reads between the registrations: after %d of %d registrations, input %s gives (%d,%s) with %d characters left; the longest registered prefix is %s with type %d, leaving %d",
+						k, len(regs), sx.Quote(input), tok.Type(), sx.Quote(tok.Value()), rem, sx.Quote(want), wantType, wantRem)
+				}
+			}
+		}
+	}
 	return out, fail
 }
